@@ -10,11 +10,13 @@ pub struct Case {
     pub params: BTreeMap<String, V>,
     pub is_write: bool,
     pub template: &'static str,
+    /// the final ORDER BY is total (ends in the unique uid): compare row sequences, not bags
+    pub ordered: bool,
 }
 
 impl Case {
     pub fn to_json(&self) -> serde_json::Value {
-        json!({"graph": self.g, "query": self.q, "params": self.params, "is_write": self.is_write,
+        json!({"graph": self.g, "query": self.q, "params": self.params, "is_write": self.is_write, "ordered": self.ordered,
                "text_param": render_query(&self.q), "text_literal": render_query(&inline_params(&self.q, &self.params))})
     }
     pub fn from_json(v: &serde_json::Value) -> Case {
@@ -24,6 +26,7 @@ impl Case {
             params: serde_json::from_value(v["params"].clone()).expect("params"),
             is_write: v["is_write"].as_bool().unwrap_or(false),
             template: "replay",
+            ordered: v["ordered"].as_bool().unwrap_or(false),
         }
     }
 }
@@ -40,7 +43,8 @@ pub fn build(tape: &[u16]) -> Case {
     let g = gen::gen_graph(&mut t);
     let mut qg = QGen::new(&mut t);
     qg.params = Some(BTreeMap::new());
-    let which = qg.t.weighted(&[10, 2, 2, 2, 2, 2, 2, 2, 2, 2, 2]);
+    let which = qg.t.weighted(&[10, 2, 2, 2, 2, 2, 2, 2, 2, 2, 2, 2, 2, 2, 2]);
+    let mut ordered = false;
     let pv = |qg: &mut QGen| -> E {
         let v = gen::boundary_param(qg.t);
         qg.new_param(v)
@@ -133,13 +137,45 @@ pub fn build(tape: &[u16]) -> Case {
             let proj = Proj { distinct: false, items: vec![Item { expr: item, alias: Some("c0".into()) }, Item { expr: E::Prop("n".into(), "uid".into()), alias: Some("c1".into()) }], order: vec![(E::Var("c0".into()), false), (E::Var("c1".into()), false)], skip: None, limit: None };
             (Query { parts: vec![vec![Clause::Match { optional: false, patterns: vec![node("n")], where_: None }, Clause::Return { proj }]], union_all: false }, false, "order_by_parameterised_item")
         }
+        11 | 12 | 13 | 14 => {
+            // parameters in every position of a searched CASE (condition, THEN, ELSE), with the
+            // CASE used as RETURN item, SET right-hand side, ORDER BY key or inside WHERE
+            let a = dv(&mut qg, "k");
+            let (b, c) = if which == 13 { (dv(&mut qg, "k"), dv(&mut qg, "k")) } else { (pv(&mut qg), pv(&mut qg)) };
+            let cond = match qg.t.choose(3) {
+                0 => E::Cmp(CmpOp::Eq, Box::new(E::Prop("n".into(), "k".into())), Box::new(a)),
+                1 => E::Cmp(CmpOp::Ge, Box::new(E::Prop("n".into(), "k".into())), Box::new(a)),
+                _ => E::Cmp(CmpOp::Lt, Box::new(E::Prop("n".into(), "uid".into())), Box::new(a)),
+            };
+            let els = if qg.t.chance(1, 5) { None } else { Some(Box::new(c)) };
+            let case_e = E::Case(vec![(cond, b)], els);
+            let m = Clause::Match { optional: false, patterns: vec![node("n")], where_: None };
+            match which {
+                11 => (Query { parts: vec![vec![m, ret(vec![(E::Prop("n".into(), "uid".into()), "c0"), (case_e, "c1")])]], union_all: false }, false, "case_in_return"),
+                12 => (
+                    Query { parts: vec![vec![m, Clause::Set { items: vec![SetItem::Prop("n".into(), "z".into(), case_e)] }, ret(vec![(E::Prop("n".into(), "uid".into()), "c0"), (E::Prop("n".into(), "z".into()), "c1")])]], union_all: false },
+                    true,
+                    "case_in_set",
+                ),
+                13 => {
+                    ordered = true;
+                    let proj = Proj { distinct: false, items: vec![Item { expr: E::Prop("n".into(), "uid".into()), alias: Some("c0".into()) }], order: vec![(case_e, qg.t.chance(1, 2)), (E::Prop("n".into(), "uid".into()), false)], skip: None, limit: None };
+                    (Query { parts: vec![vec![m, Clause::Return { proj }]], union_all: false }, false, "case_in_order_by")
+                }
+                _ => {
+                    let d = pv(&mut qg);
+                    let w = Some(E::Cmp(CmpOp::Eq, Box::new(case_e), Box::new(d)));
+                    (Query { parts: vec![vec![Clause::Match { optional: false, patterns: vec![node("n")], where_: w }, ret(vec![(E::Prop("n".into(), "uid".into()), "c0")])]], union_all: false }, false, "case_in_where")
+                }
+            }
+        }
         _ => {
             let (q, _modes) = qg.read_query();
             (q, false, "grammar_read_query")
         }
     };
     let params = qg.params.clone().unwrap_or_default();
-    Case { g, q, params, is_write, template }
+    Case { g, q, params, is_write, template, ordered }
 }
 
 fn to_params(p: &BTreeMap<String, V>) -> HashMap<String, PropertyValue> {
@@ -219,6 +255,13 @@ pub fn judge(case: &Case) -> Verdict {
         if rows_p.rows.len() != rows_l.rows.len() {
             return Verdict::Violation(format!("row counts differ: {} with parameters, {} with literals\n  param query: {text_p}\n  params: {:?}\n  literal query: {text_l}", rows_p.rows.len(), rows_l.rows.len(), case.params));
         }
+    } else if case.ordered && rows_p.rows.iter().map(|r| r.iter().map(|v| v.canon()).collect::<Vec<_>>()).ne(rows_l.rows.iter().map(|r| r.iter().map(|v| v.canon()).collect::<Vec<_>>())) {
+        return Verdict::Violation(format!(
+            "row order differs under a total ORDER BY (first = with parameters, second = with literals):\n  {:?}\n  {:?}\n  param query: {text_p}\n  params: {:?}\n  literal query: {text_l}",
+            rows_p.rows.iter().map(|r| r.iter().map(|v| v.canon()).collect::<Vec<_>>()).collect::<Vec<_>>(),
+            rows_l.rows.iter().map(|r| r.iter().map(|v| v.canon()).collect::<Vec<_>>()).collect::<Vec<_>>(),
+            case.params
+        ));
     } else if let Some(d) = norm::bag_diff(&rows_p.rows, &rows_l.rows, &modes) {
         // bag_diff prints engine=param side, spec=literal side
         return Verdict::Violation(format!("results differ (first = with parameters, second = with literals):\n{d}  param query: {text_p}\n  params: {:?}\n  literal query: {text_l}", case.params));
@@ -233,7 +276,7 @@ pub fn run(args: &Args) {
     let mut ev = Evidence::new(
         args,
         "exploration",
-        "queries from the C01 grammar with literals replaced by $parameters (WHERE, inline pattern properties) plus templates placing parameters in UNWIND, IN lists, RETURN items, function arguments, list literals, IS NULL, WITH and WITH..WHERE, ORDER BY items, SET right-hand sides and CREATE property maps; parameter values from the property domains and a boundary pool (null, extreme ints/floats, -0.0, quotes, backslashes, newlines, non-ASCII, nested lists, maps). Differential: execute with with_params(..) vs execute the text with every parameter spliced in as a literal, on twin stores; rows as bags and resulting graphs must be equal. Non-trivial = the parameterised run succeeded and returned rows or wrote; distinct = distinct (graph, query, params).",
+        "queries from the C01 grammar with literals replaced by $parameters (WHERE, inline pattern properties) plus templates placing parameters in UNWIND, IN lists, RETURN items, function arguments, list literals, IS NULL, WITH and WITH..WHERE, ORDER BY items, SET right-hand sides, CREATE property maps and every position of a searched CASE (used as RETURN item, SET right-hand side, ORDER BY key, WHERE operand); parameter values from the property domains and a boundary pool (null, extreme ints/floats, -0.0, quotes, backslashes, newlines, non-ASCII, nested lists, maps). Differential: execute with with_params(..) vs execute the text with every parameter spliced in as a literal, on twin stores; rows as bags (as sequences where the query's ORDER BY is total) and resulting graphs must be equal. Non-trivial = the parameterised run succeeded and returned rows or wrote; distinct = distinct (graph, query, params).",
     );
     ev.assume("a statement refused with parameters is allowed by the property; a statement refused only in its literal spelling has no literal answer to differ from and is counted, not flagged");
     if let Some(p) = &args.replay {
